@@ -86,7 +86,7 @@ def activate(ctx, P):
         "BESTHDR": "m_best_header",
         "ANCESTOR": "m_best_header.GetAncestor(%s.nHeight) == %s" % (nm, nm),
         "MEMPOOL": "ChainstateManager::CurrentChainstate().GetMempool()",
-        "EMPTY": "ChainstateManager::CurrentChainstate().GetMempool().size() < 1",
+        "EMPTY": "ChainstateManager::CurrentChainstate().GetMempool().empty()",
         "POPULATED": "ChainstateManager::PopulateAndValidateSnapshot(*%s, coins_file, metadata)" % cs,
         "MOREWORK": "node::CBlockIndexWorkComparator{}(ChainstateManager::ActiveTip(), %s.m_chain.Tip())" % cs,
     }
